@@ -80,11 +80,11 @@ class Check:
 
     def correspond(self, family, harness, streams, stateful=False, variant="asan", cmp=run.same,
                    nontrivial=None, judge=None, harness_args=None, env=None, timeout=300, model_family=None,
-                   post=None, link_lib=True):
+                   post=None, link_lib=True, extra_flags=None):
         """streams: list of lists of lines. Returns list of disagreements
         [{family, lines, index, line, impl, model}] and list of judged
         violations [{family, lines, index, line, impl, model, what}]."""
-        exe = build.build_harness(harness, variant, link_lib=link_lib)
+        exe = build.build_harness(harness, variant, extra_flags=extra_flags, link_lib=link_lib)
         nontrivial = nontrivial or (lambda line, out: out.startswith("ok"))
         disagreements, judged, crashes = [], [], []
         mfam = model_family or family
